@@ -76,6 +76,8 @@ def run(prop, tier, apis=None):
         steps = " ; ".join(p["steps"])
         m = re.search(r"callback: (\w+), then (\w+)s", steps)
         effect, outcome = (m.group(1), m.group(2)) if m else ("none", "panic" if "panics" in steps else "return")
+        if p["api"] == "Arc::into_thin":
+            effect = "mismatch"
         # native replay at the smallest count that satisfies the path (1 or 2)
         cn = 1 if re.search(r"\bc == 1\b|1 == c", p["pc"]) and "Not(1 == c)" not in p["pc"] and "Not(c == 1)" not in p["pc"] else 2
         nat = native_replay(p["api"], effect, outcome, cn)
@@ -98,7 +100,7 @@ def run(prop, tier, apis=None):
         "apis": sorted(set(p["api"] for p in paths)),
         "functions_symbolically_executed": sorted(set(p["fn"] for p in paths)),
         "paths": len(paths), "paths_leaving_by_unwind": sum(1 for p in paths if p["exit"] == "unwind"),
-        "callback_summaries": "Clone::clone {returns, panics}; callback {no effect, keeps a clone, replaces the Arc (only &mut)} x {returns, panics}",
+        "callback_summaries": "Clone::clone {returns, panics}; callback {no effect, keeps a clone, replaces the Arc (only &mut)} x {returns, panics}; into_thin: symbolic recorded vs real slice length",
         "samples": samples,
     }
     res["assumptions"] = [
